@@ -100,8 +100,16 @@ def lanelet_snapshot(la):
             sorted((int(t), sorted(v)) for t, v in la.dynamic_obstacles_on_lanelet.items())]
 
 
+def info_desc(info):
+    if info is None:
+        return None
+    return [str(getattr(info, a, None)) for a in ("commonroad_version", "map_id", "date", "author", "affiliation",
+                                                  "source", "licence_name", "licence_text")]
+
+
 def network_snapshot(net):
-    out = {"lanelets": [lanelet_snapshot(la) for la in net.lanelets], "signs": [], "lights": [], "intersections": []}
+    out = {"lanelets": [lanelet_snapshot(la) for la in net.lanelets], "signs": [], "lights": [], "intersections": [],
+           "information": info_desc(getattr(net, "information", None))}
     for s in net.traffic_signs:
         out["signs"].append([s.traffic_sign_id, [(e.traffic_sign_element_id.name, list(e.additional_values))
                                                  for e in s.traffic_sign_elements],
@@ -178,6 +186,21 @@ def first_difference(a, b, path="$"):
                 return d
         return None
     return None if a == b else f"{path}: {str(a)[:80]} -> {str(b)[:80]}"
+
+
+def warm_matplotlib():
+    """Run once in the pristine twin server: matplotlib's own start-up work (font cache, Agg canvas, text layout).
+    Nothing of commonroad is touched."""
+    import matplotlib
+
+    matplotlib.use("Agg")
+    import matplotlib.pyplot as plt
+
+    fig, ax = plt.subplots()
+    ax.plot([0, 1], [0, 1])
+    ax.text(0.5, 0.5, "warm-up")
+    fig.canvas.draw()
+    plt.close("all")
 
 
 def _scribble_state(st):
@@ -315,6 +338,11 @@ class Run(RunBase):
         self.probe("source-" + self.source)
         self.sc, self.pps = sc, pps
         self.panel = [np.array(p, dtype=float) for p in universe["panel"]]
+        # an independent network built with every argument left at its default: nobody touches it during the run
+        from commonroad.scenario.lanelet import LaneletNetwork
+
+        self.idle_net = LaneletNetwork()
+        self.idle_base = json.dumps(canon(network_snapshot(self.idle_net)), sort_keys=True)
         self.base = snapshot(sc, pps, self.panel)
         self.base_export = {}
         for fmt in ("xml", "pb"):
@@ -362,6 +390,14 @@ class Run(RunBase):
                             f"(outcome of the operation: {outcome}; scenario source: {self.source})",
                             {"difference": d})
 
+    def _check_idle(self, op):
+        now = json.dumps(canon(network_snapshot(self.idle_net)), sort_keys=True)
+        if now != self.idle_base:
+            d = first_difference(json.loads(self.idle_base), json.loads(now))
+            raise Violation(f"C18/independent-network-affected/{op['op']}[{op.get('what', op.get('fmt', ''))}]",
+                            f"read-only operation {op} on the scenario changed an independent, default-built lanelet "
+                            f"network that takes no part in the run: {d}")
+
     def _check_export(self, op, fmt):
         base = self.base_export[fmt]
         if base[0] != "ok":
@@ -391,6 +427,7 @@ class Run(RunBase):
         for f in self.features:
             self.probe(f"cell:{op['op']}x{f}")
         self._check_unchanged(op, outcome)
+        self._check_idle(op)
         if op.get("export_after"):
             self._check_export(op, op["export_after"])
         self.note_state([op["op"], op.get("what", op.get("fmt", "")), str(outcome)[:20], self.source, self.features])
@@ -791,6 +828,12 @@ OP_KINDS = ["q_obstacle", "q_scenario", "q_network", "goal", "compare", "copy", 
 class C18(Property):
     id = "C18"
     title = "Read-only operations do not change scenarios or planning problems"
+    # every run (and every replay) executes in a process that never ran anything before: state that a read-only
+    # operation leaves in a process-wide default object (a shared default argument, a class attribute) would otherwise
+    # be there already when the next run - or the replay of this one - takes its baseline
+    needs_zygote = True
+    isolate_runs = True
+    zygote_warmup = ["props.c18_readonly:warm_matplotlib"]
     tiers = {"quick": {"runs": 640, "wall": 270, "chunk": 5}, "thorough": {"runs": 20000, "wall": 1700, "chunk": 10}}
     expected_probes = ["source-direct", "source-xml", "source-pb", "feature:custom-state-without-orientation",
                        "feature:defaultdict-goal-table", "feature:pm-trajectory", "feature:uncertain-state",
@@ -908,6 +951,9 @@ class C18(Property):
                 return node
             net = shift(net)
             obstacles = shift(obstacles)
+        if rng.chance(0.5):
+            net["info"] = {"map_id": "DEU_RO-1", "author": "A. Mapper", "affiliation": "verif", "source": "drawn",
+                           "licence_name": "none"}
         no_map = rng.chance(0.07)
         pps = [gen.gen_planning_problem(rng, ids.take(), net, with_lanelet_goal=not no_map)
                for _ in range(rng.randint(1, 2))]
